@@ -65,9 +65,16 @@ Definition restore_index_name (n : option string) : option string :=
   end.
 
 (* _perform_read_parquet_dask: the columns handed to Dask's own reader for the
-   meta frame *)
-Definition cols_no_index (columns : option (list string)) : option (list string) :=
-  option_map (filter (fun c => negb (String.eqb c "hilbert_distance"))) columns.
+   meta frame:
+     index_names = {"hilbert_distance"} | {name for name in index_columns if isinstance(name, str)}
+     cols_no_index = [col for col in columns if col not in index_names]          *)
+Definition index_names (index_cols : list idxdesc) : list string :=
+  "hilbert_distance"%string ::
+  flat_map (fun d => match d with IdxStr n => [n] | _ => [] end) index_cols.
+
+Definition cols_no_index (index_cols : list idxdesc) (columns : option (list string))
+  : option (list string) :=
+  option_map (filter (fun c => negb (mem c (index_names index_cols)))) columns.
 
 (* ---- dtype names ---- *)
 
